@@ -133,9 +133,81 @@ def long_batches(rep):
     rep.part("long_batches", cases=n)
 
 
+NAMES = (("shard.0", "shard.1", "shard.2"), ("hh_phi0.01", "hh_phi0.05"), ("v1.2", "v1.10"),
+         ("plain_a", "plain_b"), ("a.npz", "b.npz"), ("x.tar.0", "x.tar.1"))
+
+
+def names_case(names, args):
+    """Several sketches saved side by side under the given names (save() appends '.npz' to a
+    name that lacks it, like numpy), each loaded back - by '<name>.npz' if that file exists,
+    else by the name itself.  Whatever a loaded sketch reports must have been added to THE
+    sketch saved under that name (a key never added to it is never reported)."""
+    import os
+    from ..common import tmpdir as _tmpdir
+    from .. import sk as SK
+
+    d = _tmpdir()
+    probs = []
+    try:
+        truth = {}
+        for i, nm in enumerate(names):
+            sk = SK.make("hh", *args)
+            keys = {b"s%d" % i: 5 + i, b"c": 1 + i}
+            for k, v in keys.items():
+                sk.add(k, v)
+            truth[nm] = keys
+            sk.save(os.path.join(d, nm))
+        for nm in names:
+            path = os.path.join(d, nm)
+            cand = [path] if nm.endswith(".npz") else [path + ".npz", path]
+            L = None
+            err = None
+            for c in cand:
+                try:
+                    L = SK.classes()["hh"].load(c)
+                    break
+                except Exception as e:  # noqa
+                    err = e
+            if L is None:
+                probs.append(f"the sketch saved as {nm!r} cannot be loaded back "
+                             f"({type(err).__name__}: {str(err)[:80]})")
+                continue
+            t = truth[nm]
+            for k, c in L.query(10**6, 0):
+                if int(c) > t.get(k, 0):
+                    probs.append(f"sketch saved as {nm!r}: after load, query reports ({k!r}, {int(c)}) "
+                                 f"but its own history holds {t.get(k, 0)} of that key")
+            for other in truth.values():
+                for k in other:
+                    if int(L[k]) > t.get(k, 0):
+                        probs.append(f"sketch saved as {nm!r}: after load, hh[{k!r}] = {int(L[k])}, true "
+                                     f"count in its own history {t.get(k, 0)}")
+            del L
+    finally:
+        shutil.rmtree(d, ignore_errors=True)
+    return bool(probs), {"problems": probs[:3]}
+
+
+def side_by_side_files(rep):
+    n = 0
+    for names in NAMES:
+        for args in ([4, 2, 3], [1, 1, 2]):
+            bad, obs = names_case(names, args)
+            n += 1
+            rep.evals()
+            rep.nontrivial(("names", names[0], tuple(args)))
+            if bad:
+                rep.violation({"part": "names", "names": list(names), "args": args},
+                              f"hh{args}, files {list(names)}: {obs['problems'][0]}")
+    rep.add("transitions", n)
+    rep.add("traces_validated_against_impl", n)
+    rep.part("side_by_side_files", cases=n)
+
+
 def run(rep):
     run_mode(rep, MODE, configs(rep.tier, rep.seed), __name__)
     long_batches(rep)
+    side_by_side_files(rep)
     rep.set(
         "rule",
         "state = full concrete state of every real HeavyHitters (tables + query cache) + true "
@@ -148,6 +220,8 @@ def run(rep):
 def replay(case):
     if case.get("part") == "long":
         return long_case(case["args"], case["n"], case["how"])
+    if case.get("part") == "names":
+        return names_case(tuple(case["names"]), case["args"])
     scratch = tmpdir()
     try:
         return H.HHSys(scratch, MODE).replay(case["cfg"], case["events"])
